@@ -20,6 +20,8 @@ RULE = ("cases = (width in {1,7,8,9,16,24,33,...}, endianness, endpoint number, 
         "plus a few streams outside the environment assumption (ack and new_token in one cycle) compared with the "
         "model only")
 ASSUMPTIONS = ["width >= 1",
+               "modelled code = repaired code: WAIT_FOR_ACK takes handshakes_in.ack only while the tokenizer shows an "
+               "IN token for this endpoint (fix commit on branch wt-in)",
                "handshakes_in.ack and tokenizer.new_token are never high in the same cycle (they are decoded "
                "from different packets of one receive stream); the model still mirrors the gateware there"]
 PARTIAL = ""
@@ -105,7 +107,8 @@ class Host:
                     self.phase, self.cnt = "gap", r.range(0, 8)
         if self.phase == "pkt":
             if valid and last and self.last_ready:
-                self.plan = r.weighted([(60, "ack"), (22, "none"), (6, "ack2"), (6, "late"), (6, "ackgap")])
+                self.plan = r.weighted([(54, "ack"), (18, "none"), (6, "ack2"), (6, "late"), (6, "ackgap"),
+                                        (10, "foreign")])
                 self.phase, self.cnt = "post", r.range(0, 5)
             elif r.chance(2):
                 rfr = 1                        # requests while transmitting are ignored
@@ -122,6 +125,17 @@ class Host:
                         self.cnt = r.range(0, 2)
                     else:
                         self.phase, self.cnt = "gap", (0 if self.plan == "ackgap" else r.range(0, 8))
+                elif self.plan == "foreign":   # a transaction of ANOTHER device: its token is address-filtered
+                    # (tokenizer pid cleared, no new_token strobe), its ACK is broadcast and must be ignored
+                    if r.chance(50):
+                        self.is_in = 0
+                    else:
+                        self.endpoint = (self.ep + r.range(1, 15)) % 16
+                    self.plan = "foreign2"
+                    self.cnt = r.range(0, 4)
+                elif self.plan == "foreign2":
+                    ack = 1
+                    self.phase, self.cnt = "gap", r.range(0, 8)
                 elif self.plan == "late":      # the ACK arrives after the next token: must be ignored
                     nt = 1
                     self.plan = "ack"
@@ -177,10 +191,15 @@ def monitor(width, big, ep, stim, rows):
             if valid:
                 fail(t, "unsolicited-packet", "tx.valid high in phase %s" % phase)
             if phase == "sent":
-                if complete != ack:
-                    fail(t, "complete-vs-ack", "status_read_complete=%d with ack=%d right after the packet"
-                         % (complete, ack))
-                if ack:
+                # host handshakes are broadcast: only an ACK received while the tokenizer still shows an
+                # IN token for this endpoint belongs to this poll
+                mine = int(bool(ack and endpoint == ep and is_in))
+                if ack and not mine:
+                    tags.add("foreign-ack-ignored")
+                if complete != mine:
+                    fail(t, "complete-vs-ack", "status_read_complete=%d with ack=%d (endpoint=%d is_in=%d) right "
+                         "after the packet" % (complete, ack, endpoint, is_in))
+                if mine:
                     completes += 1
                     phase = "fresh"
                     tags.add("acked")
